@@ -84,7 +84,9 @@ class Snapshot:
         return os.path.join(self.bin, name)
 
 
-SAN_FLAGS = "-fsanitize=address,undefined -fno-sanitize-recover=all -fno-omit-frame-pointer"
+# _GLIBCXX_ASSERTIONS: libstdc++ checks the preconditions of operator[] / front / back / unique_ptr
+# dereference (out-of-range element access inside a vector's capacity is invisible to ASan)
+SAN_FLAGS = "-fsanitize=address,undefined -fno-sanitize-recover=all -fno-omit-frame-pointer -D_GLIBCXX_ASSERTIONS"
 
 
 def snapshot(flavour="plain"):
@@ -114,7 +116,7 @@ def snapshot(flavour="plain"):
         ldflags = ""
         if flavour == "san":
             flags += " " + SAN_FLAGS
-            ldflags = SAN_FLAGS
+            ldflags = SAN_FLAGS.replace(" -D_GLIBCXX_ASSERTIONS", "")
         # the project forces CMAKE_RUNTIME_OUTPUT_DIRECTORY=<src>/bin; build each flavour then
         # move the binaries aside so that flavours do not overwrite each other
         shutil.rmtree(snap.build, ignore_errors=True)
